@@ -134,8 +134,18 @@ def powhsm_message(rng, pubkeys_hash=None, version=b"5.4", platform=None, header
         "best_block": rng.randbytes(32), "last_signed_tx": rng.randbytes(8),
         "timestamp": rng.choice([bytes(8), rng.randbytes(8)]),
     }
-    msg = header + b"".join(fields[k] for k in ("platform", "ud_value", "public_keys_hash",
-                                                "best_block", "last_signed_tx", "timestamp"))
+    order = ("platform", "ud_value", "public_keys_hash", "best_block", "last_signed_tx",
+             "timestamp")
+    msg = header + b"".join(fields[k] for k in order)
+    if rng.random() < 1 / 6:
+        # one message in six has a digest that begins or ends with a zero byte (what is
+        # committed to is the digest: its zeros are data, not padding)
+        for _ in range(4000):
+            fields["best_block"] = rng.randbytes(32)
+            msg = header + b"".join(fields[k] for k in order)
+            dg = hashlib.sha256(msg).digest()
+            if dg[0] == 0 or dg[-1] == 0:
+                break
     return msg, fields
 
 
@@ -173,6 +183,14 @@ def build(rng, depth=None, custom_data=None, auth_len=None, windows=None, leaf_c
         n = len(m.auth_data)
         m.auth_data = (m.auth_data + pad)[-n:] if k < 0.18 else (pad + m.auth_data)[:n]
     att_xy = xy(m.att_key.public_key())
+    if len(m.auth_data) >= 8 and rng.random() < 1 / 6:
+        # ... and one commitment to the attestation key in six likewise
+        for _ in range(4000):
+            mid = len(m.auth_data) // 2
+            m.auth_data = m.auth_data[:mid] + rng.randbytes(4) + m.auth_data[mid + 4:]
+            dg = hashlib.sha256(att_xy + m.auth_data).digest()
+            if dg[0] == 0 or dg[-1] == 0:
+                break
     m.qe_report = report_body(rng, hashlib.sha256(att_xy + m.auth_data).digest())
     leaf_key = m.cert_keys[-1]
     m.qe_sig = sign_der(leaf_key, m.qe_report)
